@@ -140,32 +140,36 @@ def run(c, a):
     os.chmod(wrapper, 0o755)
 
     def probe(cases, tag):
-        # cheap probes spread over processes; big ones together in one process (it serialises them)
+        # cheap probes spread over processes; big ones in small separate processes
         small = [x for x in cases if not x["big"]]
         big = [x for x in cases if x["big"]]
         nsh = max(1, min(NCPU // 2, len(small) // 12))
-        parts = [small[i::nsh] for i in range(nsh)]
-        for b in range(0, len(big), 16):
-            parts.append(big[b:b + 16])
-        files = []
-        for i, part in enumerate(parts):
-            p = os.path.join(c.scratch, "so-%s-in-%d.ndjson" % (tag, i))
-            with open(p, "w") as f:
-                for x in part:
-                    f.write(json.dumps(x) + "\n")
-            files.append(p)
-        res = c.run_shards(wrapper, "^TestVerifStreamObs$", files, os.path.join(c.scratch, "so-%s-out" % tag), timeout=800,
-                           env={"VERIF_FOLLOW_BOUND_MS": str(FOLLOW_BOUND_MS), "VERIF_PAR": "6"})
+        groups = [([small[i::nsh] for i in range(nsh)], NCPU, "")]
+        # big probes: few per process (a wedged handler keeps its counters reachable until the process exits), few processes
+        groups.append(([big[b:b + 4] for b in range(0, len(big), 4)], 3, "big"))
         events = []
-        for rc, out, outp in res:
-            evs = [json.loads(l) for l in open(outp)] if os.path.exists(outp) else []
-            if rc != 0:
-                # a crash of the probing process is a verdict only if the proxy panicked outside CapturePanic
-                if "panic:" in out and "goroutine" in out and evs:
-                    log("probing process died: " + out[-400:])
-                else:
-                    raise Broken("harness shard failed rc=%s: %s" % (rc, out[-1500:]))
-            events += evs
+        for parts, maxpar, sub in groups:
+            parts = [x for x in parts if x]
+            if not parts:
+                continue
+            files = []
+            for i, part in enumerate(parts):
+                p = os.path.join(c.scratch, "so-%s%s-in-%d.ndjson" % (tag, sub, i))
+                with open(p, "w") as f:
+                    for x in part:
+                        f.write(json.dumps(x) + "\n")
+                files.append(p)
+            res = c.run_shards(wrapper, "^TestVerifStreamObs$", files, os.path.join(c.scratch, "so-%s%s-out" % (tag, sub)),
+                               timeout=800, maxpar=maxpar, env={"VERIF_FOLLOW_BOUND_MS": str(FOLLOW_BOUND_MS), "VERIF_PAR": "6"})
+            for rc, out, outp in res:
+                evs = [json.loads(l) for l in open(outp)] if os.path.exists(outp) else []
+                if rc != 0:
+                    # a crash of the probing process is a verdict only if the proxy panicked outside CapturePanic
+                    if evs and proxy_panicked(outp + ".log"):
+                        log("probing process died in proxy code: " + out[-400:])
+                    else:
+                        raise Broken("harness shard failed rc=%s: %s" % (rc, out[-1500:]))
+                events += evs
         return events
     # phase 0: the sentinel alone (cheap under both arithmetics) tells which growth arithmetic the tree has, and with it
     # which probes fit the memory limit
@@ -277,6 +281,26 @@ def run(c, a):
     for pid in sorted(by_id)[:1] + sorted(viol_ids)[:1]:
         sample.append(by_id[pid])
     return c.finish(sample, traces_validated=len(complete) - len(viol_ids))
+
+
+def proxy_panicked(logpath):
+    """True iff the process died of a Go panic whose first stack runs through non-harness code of /repo/proxy."""
+    try:
+        text = open(logpath, errors="replace").read()
+    except OSError:
+        return False
+    k = text.find("\npanic: ")
+    if k < 0 and not text.startswith("panic: "):
+        return False
+    first = text[max(k, 0):].split("\n\n", 2)
+    stack = "\n".join(first[:2])
+    if "out of memory" in text[:400]:
+        return False
+    for line in stack.split("\n"):
+        line = line.strip()
+        if "/proxy/" in line and ".go:" in line and "zz_verif" not in line and "/pkg/mod/" not in line:
+            return True
+    return False
 
 
 def load_proposed(pid):
